@@ -47,40 +47,44 @@ LocalOK(L, i) ==
                   /\ (pv = -1) => (Fst(L, p) = i)
                   /\ (nx = -1) => (Lst(L, p) = i))
 
-\* length of the sibling chain starting at c (stops counting beyond the pool size)
-RECURSIVE ChainLen(_, _, _)
-ChainLen(L, c, k) == IF c = -1 \/ k > Len(L) THEN k ELSE ChainLen(L, Nxt(L, c), k + 1)
-\* total length of all child lists (summed by halving the slot range: shallow recursion)
-RECURSIVE SumListed(_, _, _)
-SumListed(L, lo, hi) ==
-  IF lo > hi THEN 0
-  ELSE IF lo = hi THEN (IF Freed(L, lo) THEN 0 ELSE ChainLen(L, Fst(L, lo), 0))
-  ELSE LET mid == (lo + hi) \div 2 IN SumListed(L, lo, mid) + SumListed(L, mid + 1, hi)
-Children(L) == {i \in Live(L) : Par(L, i) # -1}
-\* every object that names a parent is on that parent's child list (given LocalOK, the only way to
-\* break this is a ring of siblings that the parent does not list)
-AllListed(L) == SumListed(L, 0, Len(L) - 1) = Cardinality(Children(L))
-
-\* follow parent links at most k times: the root reached, or -2 when there is none (a cycle)
-RECURSIVE Up(_, _, _)
-Up(L, i, k) == IF Par(L, i) = -1 THEN i ELSE IF k = 0 THEN -2 ELSE Up(L, Par(L, i), k - 1)
-Acyclic(L)  == \A i \in Live(L) : Up(L, i, Len(L)) # -2
+(* Global shape, by pointer doubling (O(n log n) whatever the depth or width of the tree - tables of   *)
+(* tens of kilobytes yield chains of tens of thousands of objects).  Given LocalOK for every live   *)
+(* slot, two things can still be wrong: a ring of siblings that its parent does not list, and a     *)
+(* cycle of parent links.  J is a sequence over the slots (J[i+1] for slot i); Doubled composes it  *)
+(* with itself k times, so that a slot is taken 2^k steps along `step` (ends are fixed points).     *)
+RECURSIVE Log2Up(_, _, _)
+Log2Up(n, k, p) == IF p >= n THEN k ELSE Log2Up(n, k + 1, 2 * p)          \* least k with 2^k >= n
+RECURSIVE Doubled(_, _)
+Doubled(J, k) == IF k = 0 THEN J ELSE Doubled(TLCEval([i \in 1 .. Len(J) |-> J[J[i] + 1]]), k - 1)
+\* where slot i ends up after following parent links / previous-sibling links to the end
+Tops(L)  == Doubled(TLCEval([i \in 1 .. Len(L) |-> IF Freed(L, i - 1) \/ Par(L, i - 1) = -1 THEN i - 1 ELSE Par(L, i - 1)]),
+                    Log2Up(Len(L) + 1, 0, 1))
+Heads(L) == Doubled(TLCEval([i \in 1 .. Len(L) |-> IF Freed(L, i - 1) \/ Prv(L, i - 1) = -1 THEN i - 1 ELSE Prv(L, i - 1)]),
+                    Log2Up(Len(L) + 1, 0, 1))
+\* every object is reached from the head of its sibling list (the head of a list is its parent's first
+\* child by LocalOK): no ring of siblings hangs off a parent that does not list it
+RingSlots(L)  == LET H == Heads(L) IN {i \in Live(L) : Prv(L, H[i + 1]) # -1}
+\* following parent links ends at an object without parent: no cycle
+CycleSlots(L) == LET T == Tops(L) IN {i \in Live(L) : Par(L, T[i + 1]) # -1}
+AllListed(L) == RingSlots(L) = {}
+Acyclic(L)   == CycleSlots(L) = {}
 
 WellFormed(L) == /\ \A i \in Live(L) : LocalOK(L, i)
                  /\ AllListed(L)
                  /\ Acyclic(L)
 
 \* diagnosis for the mismatch record (<<>> when well formed)
+Least(S) == CHOOSE j \in S : \A k \in S : j <= k
 WFProblem(L) ==
   LET bad == {i \in Live(L) : ~LocalOK(L, i)} IN
-  IF bad # {} THEN LET i == CHOOSE j \in bad : \A k \in bad : j <= k IN <<"links of slot disagree with its neighbours", i, L[i + 1]>>
-  ELSE IF ~AllListed(L) THEN <<"objects not on their parent's child list", Cardinality(Children(L)), SumListed(L, 0, Len(L) - 1)>>
-  ELSE LET cyc == {i \in Live(L) : Up(L, i, Len(L)) = -2} IN
-       IF cyc # {} THEN <<"parent links form a cycle through slot", CHOOSE j \in cyc : \A k \in cyc : j <= k>>
-       ELSE <<>>
+  IF bad # {} THEN <<"links of slot disagree with its neighbours", Least(bad), L[Least(bad) + 1]>>
+  ELSE IF ~AllListed(L) THEN <<"sibling ring: object not on its parent's child list, slot", Least(RingSlots(L))>>
+  ELSE IF ~Acyclic(L) THEN <<"parent links form a cycle through slot", Least(CycleSlots(L))>>
+  ELSE <<>>
 
 \* the tree proper: what hangs below the root scope, slot 0 (only meaningful when WellFormed)
-Attached(L, i) == Len(L) > 0 /\ Up(L, i, Len(L)) = 0
+AttachedSlots(L) == IF Len(L) = 0 THEN {} ELSE LET T == Tops(L) IN {i \in Live(L) : T[i + 1] = 0}
+Attached(L, i)   == i \in AttachedSlots(L)
 
 (* ------------------------------------------------------------------ byte slices              *)
 (* S lists every []byte stored in a live object as <<slot, table, offset, length>>: table is the *)
@@ -91,7 +95,8 @@ Huge == 536870912     \* 2^29: beyond any table, and Huge + Huge still fits a TL
 SliceOK(s, TL) == s[4] = 0 \/ (/\ s[2] \in 0 .. (Len(TL) - 1)
                                /\ s[3] >= 0 /\ s[3] < Huge /\ s[4] < Huge
                                /\ s[3] + s[4] <= TL[s[2] + 1])
-BadSlices(L, S, TL) == {k \in 1 .. Len(S) : Attached(L, S[k][1]) /\ ~SliceOK(S[k], TL)}
+BadSlices(L, S, TL) == LET bad == {k \in 1 .. Len(S) : ~SliceOK(S[k], TL)} IN     \* (usually empty: the tree is not walked)
+                       IF bad = {} THEN {} ELSE LET A == AttachedSlots(L) IN {k \in bad : S[k][1] \in A}
 InBounds(L, S, TL)  == BadSlices(L, S, TL) = {}
 
 (* ------------------------------------------------------------------ the judgement            *)
@@ -159,22 +164,33 @@ Interesting == {0, 1, 2, 3, 8, 10, 13, 16, 17, 20, 46, 47, 63, 64, 91, 92, 94, 6
 \* place where "declared a little more than is there" decides between inside and behind the table
 SmallDeltas == {-3, -2, -1, 1, 2, 3}
 
-\* the mutations applicable to b, as <<kind, arguments...>>
-Mutations(b, setvals, splicelens) ==
-     {<<"Truncate", k>> : k \in 0 .. (Len(b) - 1)}
-  \cup {<<"FlipBit", i, bit>> : i \in 1 .. Len(b), bit \in 0 .. 7}
-  \cup {<<"SetByte", i, v>> : i \in 1 .. Len(b), v \in setvals}
-  \cup {<<"AddToByte", i, d>> : i \in 1 .. Len(b), d \in SmallDeltas}
-  \cup UNION {{<<"CorruptPkgLen", i, nv - PkgVal(b, i)>> : nv \in CorruptVals(b, i)} : i \in Sites(b)}
-  \cup UNION {{<<"Splice", PkgStart(b, i), PkgStart(b, j), k>> :
-                  k \in {PkgSpan(b, j)} \cup {n \in splicelens : PkgStart(b, j) + n - 1 <= Len(b)}} : i \in Sites(b), j \in Sites(b)}
+\* start positions of the packages of b (where a plausible PkgLength follows a package opcode)
+PkgStarts(b) == {PkgStart(b, i) : i \in Sites(b)}
 
-Apply(b, m) ==
+\* the mutations of one kind applicable to b, as <<kind, arguments...>>; donor is another well-formed
+\* program (for the splices that combine two programs)
+MutationsOf(kind, b, donor, setvals, splicelens) ==
+  CASE kind = "Truncate"      -> {<<"Truncate", k>> : k \in 0 .. (Len(b) - 1)}
+    [] kind = "FlipBit"       -> {<<"FlipBit", i, bit>> : i \in 1 .. Len(b), bit \in 0 .. 7}
+    [] kind = "SetByte"       -> {<<"SetByte", i, v>> : i \in 1 .. Len(b), v \in setvals}
+    [] kind = "AddToByte"     -> {<<"AddToByte", i, d>> : i \in 1 .. Len(b), d \in SmallDeltas}
+    [] kind = "CorruptPkgLen" -> UNION {{<<"CorruptPkgLen", i, nv - PkgVal(b, i)>> : nv \in CorruptVals(b, i)} : i \in Sites(b)}
+    \* a copy of a package (or of its first bytes) of b inserted in front of ANY byte of b, and behind the last
+    [] kind = "Splice"        -> UNION {{<<"Splice", i, PkgStart(b, j), k>> :
+                                          k \in {PkgSpan(b, j)} \cup {n \in splicelens : PkgStart(b, j) + n - 1 <= Len(b)}} :
+                                        i \in 1 .. (Len(b) + 1), j \in Sites(b)}
+    \* the first i bytes of b continued by the donor from its start or from one of its packages
+    [] kind = "Join"          -> {<<"Join", i, j>> : i \in 0 .. Len(b), j \in {1} \cup PkgStarts(donor)}
+AllKinds == {"Truncate", "FlipBit", "SetByte", "AddToByte", "CorruptPkgLen", "Splice", "Join"}
+Mutations(kinds, b, donor, setvals, splicelens) == UNION {MutationsOf(k, b, donor, setvals, splicelens) : k \in kinds}
+
+Apply(b, donor, m) ==
   CASE m[1] = "Truncate"      -> SubSeq(b, 1, m[2])
     [] m[1] = "FlipBit"       -> [b EXCEPT ![m[2]] = XorBit(b[m[2]], m[3])]
     [] m[1] = "SetByte"       -> [b EXCEPT ![m[2]] = m[3]]
     [] m[1] = "AddToByte"     -> [b EXCEPT ![m[2]] = (b[m[2]] + m[3] + 256) % 256]
     [] m[1] = "CorruptPkgLen" -> SetPkgVal(b, m[2], PkgVal(b, m[2]) + m[3])
     [] m[1] = "Splice"        -> SubSeq(b, 1, m[2] - 1) \o SubSeq(b, m[3], m[3] + m[4] - 1) \o SubSeq(b, m[2], Len(b))
+    [] m[1] = "Join"          -> SubSeq(b, 1, m[2]) \o SubSeq(donor, m[3], Len(donor))
 IsBytes(b) == \A i \in 1 .. Len(b) : b[i] \in 0 .. 255
 ====
